@@ -9,7 +9,7 @@
 EXTENDS CustomNet, TLC
 CONSTANTS MaxLen
 
-Scripts == {"ident", "set", "setDeep", "append", "meta", "all"}
+Scripts == {"ident", "set", "setDeep", "append", "meta", "all", "metaMatch"}
 Origs == [w : {Absent, 7}, dw : {Absent, 3}, items : {<<>>, <<100>>}, annw : {Absent}, lab : {0}, nm : {Absent}]
 Steps == [w : {0, 1, 50, 100}, m : {0}] \cup [w : {NoTraffic}, m : {0, 1, 2}] \cup [w : {50}, m : {1}]
 
